@@ -143,6 +143,51 @@ def run_destsize(st, which, src, target, level, res, info, check_model=True):
     srcb.free(); dstb.free()
     return r, sz.value, out
 
+def hcemit_lib():
+    """shared object with harness/c/hcemit.c (#includes lz4hc.c to reach the static LZ4HC_encodeSequence)"""
+    from vlib import build_lib
+    return build_lib("hcemit", wrappers=["hcemit.c"])
+
+def run_hcemit(st, rng, res, info, L, ml, offset, limit, room):
+    """one call of the real LZ4HC_encodeSequence vs the extracted model (Model.HcEmit):
+    L literals, match length ml, `room` = oend - op; exact-size ASan destination"""
+    import ctypes
+    from ctypes import c_int, byref, c_void_p
+    L4 = st["hcemit"]
+    f = L4.v_hc_encodeSequence
+    f.restype = c_int
+    f.argtypes = [c_void_p, c_int, c_int, c_void_p, c_int, c_int, c_int, c_int, c_int,
+                  ctypes.POINTER(c_int), ctypes.POINTER(c_int), ctypes.POINTER(c_int)]
+    anchor = rng.choice([0, 3, 17])
+    src = rng.randbytes(anchor + L + ml + 16)
+    op0 = rng.choice([0, 1, 9])
+    oend = op0 + room
+    # the wild copy reads up to 7 bytes beyond the literals: give the source that slack (as the parsers do: MFLIMIT)
+    srcb = Buf(len(src), data=src)
+    dstsz = oend if limit else op0 + 1 + L // 255 + 1 + L + 8 + 2 + ml // 255 + 2 + 8
+    dstb = Buf(max(dstsz, 1), fill=0xC3)
+    nop, nip, nan = c_int(0), c_int(0), c_int(0)
+    r = f(srcb.p, anchor + L, anchor, dstb.p, op0, ml, offset, 1 if limit else 0, oend, byref(nop), byref(nip), byref(nan))
+    res["evals"] += 1
+    got = dstb.bytes(nop.value - op0, op0) if nop.value >= op0 else b""
+    tail = dstb.bytes()[max(nop.value, op0):]
+    srcb.free(); dstb.free()
+    m = st["oracle"].ask("hcemit", hx(src), str(anchor + L), str(anchor), str(op0), str(ml), str(offset), "1" if limit else "0", str(oend)).split()
+    mret, mop, mhw, mlen, mmd5 = int(m[0]), int(m[1]), int(m[2]), int(m[3]), m[4]
+    bad = None
+    if mret != r:
+        bad = "return code: model %d, code %d" % (mret, r)
+    elif r == 0 and (mop != nop.value or mmd5 != md5(got)):
+        bad = "bytes/op differ: model op %d, code op %d" % (mop, nop.value)
+    elif r == 0 and (nip.value != anchor + L + ml or nan.value != nip.value):
+        bad = "ip/anchor not advanced to the end of the match"
+    if bad:
+        res["fails"].append({"status": "corr_fail", "what": "LZ4HC_encodeSequence model/code disagree: " + bad,
+                             "detail": dict(info, L=L, ml=ml, offset=offset, limit=limit, room=room)})
+    if limit and mhw > oend:
+        res["fails"].append({"status": "prop_fail", "what": "model high-water %d exceeds oend %d (theorem encodeSequence_cap contradicted?)" % (mhw, oend), "detail": info})
+    return r
+
 def new_res():
     return {"evals": 0, "fails": [], "keys": set(), "stats": collections.Counter()}
 
